@@ -69,7 +69,7 @@ def plan(tier, seed):
 
 
 def mandatory(tier):
-    return [f"format/{f}" for f in FORMATS] + [f"dtype/{d}" for d in DTYPES] + ["D/2", "D/3", "C/1", "C/2", "C/3", "compress/True", "compress/False", "flow", "sitk_reads_deepali", "deepali_reads_sitk", "meta_bytes", "header_text", "sequence", "noncontiguous_input", "flow/default_axes", "singleton_axis", "singleton_axis/nifti/C1", "singleton_axis/other/C1"]
+    return [f"format/{f}" for f in FORMATS] + [f"dtype/{d}" for d in DTYPES] + ["D/2", "D/3", "C/1", "C/2", "C/3", "compress/True", "compress/False", "flow", "sitk_reads_deepali", "deepali_reads_sitk", "meta_bytes", "header_text", "sequence", "noncontiguous_input", "flow/default_axes", "singleton_axis", "singleton_axis/nifti/C1", "singleton_axis/other/C1", "overwrite_same_path"]
 
 
 class KeyCtx:
@@ -357,4 +357,30 @@ def sequence_item(ctx, D, rep):
                     else:
                         ctx.true("minimal_header_reads_the_same_after_any_other_file", sig == first_minimal[0], key="sequence/minimal-header/repeatable", got=sig, first=first_minimal[0], first_read_after=first_minimal[1], **info)
             prev = os.path.basename(path)
+        # a path is a name, not a content: a file that was overwritten (another image on another grid) is read as what it
+        # now holds, by Image.read and by the header-only Grid.from_file; and writing leaves the image and its grid alone
+        from deepali.core.grid import Grid
+
+        for fmt in (".mha", ".nii.gz", ".nrrd"):
+            with ctx.guard("overwrite and re-read", key=f"exc/overwrite/{fmt}", D=D):
+                path = os.path.join(tmp, "same_name" + fmt)
+                seen = []
+                for gen_ in range(2):
+                    p = gen.rand_grid_params(rng, D, max_size=7, min_size=2, route="origin")
+                    arr = rng.normal(size=(1,) + tuple(p["size"][::-1])).astype(np.float32)
+                    grid = gen.make_grid(p)
+                    g_before = (list(grid.size()), grid.origin().tolist(), grid.spacing().tolist(), grid.direction().flatten().tolist(), grid.center().tolist())
+                    img_ = Image(torch.from_numpy(arr.copy()), grid)
+                    img_.write(path)
+                    back = sitk.ReadImage(path)
+                    header_close(ctx, "from_file_after_overwrite", Grid.from_file(path), back.GetSize(), np.array(back.GetOrigin()), np.array(back.GetSpacing()), np.array(back.GetDirection()), f"overwrite/{fmt}/from_file", generation=gen_)
+                    header_close(ctx, "read_after_overwrite", Image.read(path).grid(), back.GetSize(), np.array(back.GetOrigin()), np.array(back.GetSpacing()), np.array(back.GetDirection()), f"overwrite/{fmt}/read", generation=gen_)
+                    g_after = (list(grid.size()), grid.origin().tolist(), grid.spacing().tolist(), grid.direction().flatten().tolist(), grid.center().tolist())
+                    ctx.true("writing_leaves_the_grid_unchanged", g_after == g_before and bool((img_.tensor().numpy() == arr).all()), key=f"write_mutates/{fmt}", before=g_before[1:4], after=g_after[1:4])
+                    # the same image written again gives a file that reads the same
+                    path2 = os.path.join(tmp, f"again{gen_}" + fmt)
+                    img_.write(path2)
+                    b2 = sitk.ReadImage(path2)
+                    ctx.close("second_write_of_same_image_same_header", np.concatenate([np.array(b2.GetOrigin()), np.array(b2.GetSpacing()), np.array(b2.GetDirection())]), np.concatenate([np.array(back.GetOrigin()), np.array(back.GetSpacing()), np.array(back.GetDirection())]), 1e-6 * (1 + float(np.abs(np.array(back.GetOrigin())).max())), key=f"write_mutates/{fmt}")
+                ctx.bucket("overwrite_same_path")
         ctx.nontriv("sequence", D, rep)
